@@ -25,9 +25,13 @@ VARIABLES ci,     \* index of the case this behaviour validates
           dexp,   \* the machine's event at that position (<<>> if the machine emitted none there)
           facts,  \* scoped-variable resolution facts (sget events) emitted by the machine in this run
           pollsby,\* polls of the machine in this run, by label
-          obs     \* observed state folded from the RECORDED events of the earlier runs of this case
+          obs,    \* observed state folded from the RECORDED events of the earlier runs of this case
+          taken   \* how often each action of the machine was taken in this run (vacuity control, reported)
 
-vars == <<ci, ri, s, l, drift, dexp, facts, pollsby, obs>>
+vars == <<ci, ri, s, l, drift, dexp, facts, pollsby, obs, taken>>
+
+StepKinds == {"init", "BeginMatch", "ForIter", "ScanIter", "BlockEnd", "let", "var", "set", "node", "edge",
+              "attrn", "attre", "print", "if", "for", "scan", "edges", "attrs", "prints", "store", "scoped"}
 
 RECURSIVE RunOf(_, _)
 RunOf(c, r) == IF r = 1 THEN c ELSE RunOf(c.next, r - 1)
@@ -86,6 +90,7 @@ Init ==
   /\ facts = {}
   /\ pollsby = [x \in {} |-> 0]
   /\ obs = ObsInit
+  /\ taken = [k \in StepKinds |-> 0]
 
 Advance(kind) ==
   /\ s.status = "run"
@@ -97,6 +102,7 @@ Advance(kind) ==
              ELSE LET fm == FirstMismatch(Run, s'.w.ev, l) IN IF fm = 0 THEN <<>> ELSE <<s'.w.ev[fm - l]>>
   /\ facts' = facts \cup {s'.w.ev[k] : k \in {j \in 1..Len(s'.w.ev) : s'.w.ev[j].e = "sget"}}
   /\ pollsby' = PollCount(s'.w.ev, pollsby)
+  /\ taken' = [taken EXCEPT ![kind] = @ + 1]
   /\ UNCHANGED <<ci, ri, obs>>
 
 \* the next run of an execute_into history starts from the graph the previous run left behind
@@ -107,6 +113,7 @@ NextRun ==
   /\ s' = InitState(Run.next, s.w.g)
   /\ l' = 0 /\ drift' = 0 /\ dexp' = <<>> /\ facts' = {} /\ pollsby' = [x \in {} |-> 0]
   /\ obs' = ObsFold(Run.events, 1, obs)
+  /\ taken' = [k \in StepKinds |-> 0]
   /\ UNCHANGED ci
 
 CheckGlobalsStep == Advance("init")
@@ -212,7 +219,7 @@ Report ==
   [id |-> Run.id, status |-> IF s.w.unsup # <<>> THEN "unsupported" ELSE s.status, missing |-> s.w.unsup,
    kind |-> s.err.kind, chain |-> s.err.chain, adm |-> s.adm, g |-> s.w.g, drift |-> drift, dexp |-> dexp,
    matched |-> l, recorded |-> Len(Run.events), steps |-> s.steps, polls |-> s.w.np, pollsby |-> pollsby,
-   frag |-> InFragment(Run.prog), gntext |-> s.w.gntext, facts |-> facts, begun |-> s.begun, glob |-> s.glob,
+   frag |-> InFragment(Run.prog), gntext |-> s.w.gntext, taken |-> taken, facts |-> facts, begun |-> s.begun, glob |-> s.glob,
    obs |-> [n |-> FinalObs.n, dense |-> FinalObs.dense, newok |-> FinalObs.newok, conflict |-> FinalObs.conflict,
             dangling |-> FinalObs.dangling, nedges |-> Cardinality(FinalObs.edges)]]
 
